@@ -227,11 +227,7 @@ theorem skipSepTail_headOk {s : Str} (h : HeadOk s) : skipSepTail false s = s :=
   have hs := headOk_stop h
   obtain ⟨c, r, rfl, hc⟩ := h
   simp only [headAll_cons, Bool.and_eq_true, Bool.not_eq_true', bne_iff_ne, ne_eq] at hs
-  have hcomma : c ≠ ',' := by
-    rcases hc with rfl | hc | hc
-    · decide
-    · exact lower_ne hc ',' (by decide)
-    · exact upper_ne hc ',' (by decide)
+  have hcomma : c ≠ ',' := headCls_ne hc ',' (by decide)
   unfold skipSepTail
   simp only [Bool.false_eq_true, if_false, hs.1, hcomma, decide_false, Bool.or_self]
   split
@@ -283,10 +279,7 @@ theorem dropWhile_nl_spaces (k : Nat) {s : Str} (h : HeadOk s) :
 theorem headOk_not_paren {s : Str} (h : HeadOk s) : headAll (fun c => c != '(') s = true := by
   obtain ⟨c, r, rfl, hc⟩ := h
   rw [headAll_cons]
-  rcases hc with rfl | hc | hc
-  · decide
-  · simpa using lower_ne hc '(' (by decide)
-  · simpa using upper_ne hc '(' (by decide)
+  simpa using headCls_ne hc '(' (by decide)
 
 /-- a step may be followed by a line break and another step -/
 theorem stop_nl_headOk (k : Nat) {s : Str} (h : HeadOk s) : Stop ('\n' :: (List.replicate k ' ' ++ s)) := by
